@@ -49,7 +49,14 @@ INTEGRATE_POST = ("len(self.__t) == self.counter + 1 and len(self.__y) == self.c
 
 
 def install(ex, reg):
-    ex.call_hooks["new:OdeSystem"] = lambda ex_, st, ctx, args, kwargs: make_system(ex_, st, kwargs)
+    ctor = ex.src.find_method("OdeSystem", "__init__")
+    ctor_params = [a.arg for a in ctor.node.args.args][1:]          # the real constructor's parameter names, in order (without self)
+
+    def new_system(ex_, st, ctx, args, kwargs):
+        bound = dict(zip(ctor_params, args))                          # positional arguments bind as python binds them
+        bound.update(kwargs)
+        return make_system(ex_, st, bound)
+    ex.call_hooks["new:OdeSystem"] = new_system
     ex.call_hooks["OdeSystem"] = ex.call_hooks["new:OdeSystem"]
 
     def set_method(ex_, st, ctx, args, kwargs):
@@ -174,7 +181,8 @@ def check_facade(reg, src):
         dt0 = to_real(ck["dt"])
         ex.prove(s, ctx, z3.Implies(mn <= ms, z3.And(dt0 <= ms, dt0 >= mn, z3.Implies(z3.And(fs <= ms, fs >= mn), dt0 == fs))), "post", "first-step-clipped-into-[min_step,max_step]#%d" % k)
         reg.ground("%s/%s/settings-passed-to-the-system#%d" % (PID, ctx.tag, k), "post", "solve_ivp", ck.get("equ_rhs") is inp["f_arg"] and ck.get("dense_output") is True and
-                   so["method_set_to"] == "RK45" and ck.get("atol") is not None and ck.get("rtol") is not None and len(so["integrate_calls"]) == 1 and
+                   so["method_set_to"] == "RK45" and z3.is_expr(ck.get("atol")) and ck["atol"].eq(z3.Real("atol")) and z3.is_expr(ck.get("rtol")) and ck["rtol"].eq(z3.Real("rtol")) and
+                   len(so["integrate_calls"]) == 1 and
                    so["integrate_calls"][0].get("events") is not None, backend="symbolic-exec", detail="constructor kwargs %r; method %r; integrate kwargs %r" % (
                        sorted(ck), so["method_set_to"], [sorted(c) for c in so["integrate_calls"]]))
         cbs = so["integrate_calls"][0].get("callback")
